@@ -16,6 +16,7 @@ DESIGN = "perTimer"
 def run_check(prop, tier):
     t0 = time.time()
     known = vlib.load_known()
+    vlib.clear_replays(prop)
     q = tier == "quick"
     with vlib.Scratch(prop) as sc:
         sd = vlib.spec_dir(sc)
